@@ -8,11 +8,12 @@ ID = "C09"
 LEVEL = "proof"
 TITLE = "Stores are safe under concurrent use: linearizable, no crash/deadlock/lost mail"
 LEVEL_TEXT = ("partial: Coq theorems over a small-step interleaving model of both stores' locking / rendezvous protocol "
-              "(no crash incl. the size enforcer, deadlock freedom, linearizability of the memory store without size limit and "
-              "of the file store by forward simulation, distinct ids, delivered-stays-unless-removed) + forced-schedule "
+              "(no crash incl. the size enforcer, deadlock freedom, linearizability of the memory store — with and without size "
+              "limit, evictions as enforcer commits — and of the file store by forward simulation, distinct ids, "
+              "delivered-stays-unless-removed) + forced-schedule "
               "correspondence on the real stores; data-race freedom in the Go memory-model sense and runtime deadlocks are "
-              "sampled by a -race stress run (thorough tier), not proved; linearizability WITH the size limit is checked by "
-              "correspondence only")
+              "sampled by a -race stress run (thorough tier), not proved; the runner's linearizability oracle judges "
+              "implementation observations only for configurations without size limit")
 LEVEL_NOTE = ("the model cuts every operation into the atomic sections between verifhook.Point sites; Go's mutexes, channels and "
               "scheduler are modelled (atomic sections, unbuffered rendezvous), not verified; the file store's message cap is "
               "outside the concurrency model")
@@ -33,7 +34,6 @@ ASSUMPTIONS = [
     "no two file-store ids collide (C07's id hypothesis); ids in the file model are an abstract fresh counter",
 ]
 NOT_PROVED = [
-    "mem_linearizable_with_enforcer_stmt (Proofs/ConcStmts.v): linearizability of the memory store WITH a size limit, evictions as removals committed by the enforcer — correspondence only (the runner's oracle does not judge linearizability when a size limit is set)",
     "file_visit_sees_stable_mailboxes_stmt (Proofs/ConcStmts.v): a mailbox that holds mail during a whole VisitMailboxes walk is visited exactly once — checked by the runner's oracle (fail:visit-missed-mailbox) and by correspondence only",
 ]
 EXEC_TIMEOUT = {"quick": 600, "thorough": 7200}
